@@ -95,7 +95,7 @@ def channelSound (p : Plan) (c : Nat) (obs : List (Option Obs)) : Bool :=
     let ts := tags os
     nodup ts && ts.all (fun t => (expected p c).contains t) && fifoPerGoroutine ts
 
-inductive StallMode | block | fail | bad
+inductive StallMode | block | fail | bad | pause
 deriving Repr, DecidableEq
 
 /-- **C13.** `victim`'s transport blocks at / fails its `at`-th write, or item `badIdx` (goroutine 0) cannot be encoded for it.
@@ -110,6 +110,9 @@ def stallLegal (p : Plan) (ownSys : Nat) (mode : StallMode) (victim atIdx failed
       channelSound p c (obs.getD c []) &&
       (match mode with
        | .block => (obs.getD c []).length == atIdx
+       -- the transport waited at its `at`-th write until everything had been submitted: the writes before it, the one in
+       -- flight and exactly a full queue (64 items) behind it get through, in order; the rest was discarded for this channel only
+       | .pause => tags ((obs.getD c []).filterMap id) == (expected p c).take (atIdx + 1 + 64)
        | .fail => closeSeen.getD c false ||
            tags ((obs.getD c []).filterMap id) == (expected p c).filter (fun t => !(t.1 == 0 && t.2 == failedItem))
        | .bad => closeSeen.getD c false || channelComplete p ownSys c (obs.getD c []))
